@@ -66,6 +66,14 @@ CHECKS.update({
          "10 entry points x suites x (n,t): same stream => identical output; other stream => every listed secret-derived value changes; values within a call pairwise distinct; >= 16 bytes per secret; every single-draw deviation (each draw j answered from another stream, all others unchanged) changes the output; zero answers to key / proof-nonce draws are rejected and re-drawn; batch verification draws one fresh blinder per item.",
          "'Nowhere else' is decided as determinism under a scripted source within one process; blinder values are decided exactly only on the tiny field (C19).", "DESIGN 4 C16"),
 })
+CHECKS.update({
+ "C17": ("exploration", "bounded-exhaustive shape enumeration of re-randomized sessions with independent randomizer hash; exhaustive seed-byte / commitment tamper enumeration; C04 fault menu through the re-randomized aggregate",
+         "Every signer subset of every (n,t) up to the bound x randomizer sources (seeded, constant seeds, explicit 0/1/q-1): regenerated = coordinator parameters, signature valid under the randomized and (randomizer != 0) invalid under the original key, randomizer = independently computed hash(seed || independently encoded commitments); every single-byte seed change and every commitment replacement / set change changes the randomizer; a participant with tampered seed or package is exactly the culprit; every cheater subset x 4 kinds x 3 modes and every below-threshold subset through frost-rerandomized's aggregate.",
+         "Seeds are seeded streams plus constants.", "DESIGN 4 C17"),
+ "C18": ("exploration", "branch-forcing enumeration: all 8 (internal, output, R) Y-parity combinations forced by seed search for every shape / subset / script-tree root, judged by libsecp256k1",
+         "(n,t) x dealer/DKG x every signer subset x 6 root variants x messages, each in ALL parity combinations (reported per combination): libsecp256k1 verify_schnorr under the output key that libsecp256k1 add_tweak derives with an independently computed TapTweak hash; rejection under the untweaked key; absent root == empty root; honest shares verify; the C04 cheater menu (every cheater subset) in every parity combination; DKG key-path-only tweak; single-signer signing for both key parities.",
+         "libsecp256k1 is the trusted BIP-340/341 implementation.", "DESIGN 4 C18"),
+})
 NOT_APPLICABLE = {}
 
 def main():
